@@ -19,6 +19,8 @@ pub const SINGLE_LIMIT: usize = 16 << 20;
 enum What {
     Target { target: Target, retries: usize, second: bool },
     EcoHttp,
+    /// large WELL-FORMED replies (thousands of tiny entries): what the query holds must stay in proportion to what it received
+    LargeWellFormed,
 }
 
 #[derive(Clone)]
@@ -47,6 +49,7 @@ fn build(tier: Tier) -> Vec<Case> {
         }
     }
     v.push(Case { label: "eco: HTTP Content-Length extremes over a loopback responder".into(), what: What::EcoHttp });
+    v.push(Case { label: "large well-formed replies: Valve rules / players in dozens of fragments, Unreal 2 lists, GameSpy 1 variables".into(), what: What::LargeWellFormed });
     v
 }
 
@@ -75,7 +78,7 @@ impl Prop for C13 {
          5-byte varints, counts above the payload, key_<huge> suffixes), three 65507-byte datagrams and silence; thorough: two at \
          a time (second from the boundary subset). Oracle: a counting global allocator armed around the call: peak live <= 64 \
          MiB, largest single request <= 16 MiB, (a request above 1 GiB is refused and the process death is attributed to the \
-         execution), and sends <= (retries+1) x (datagrams delivered + 8). Eco: Content-Length extremes over loopback HTTP"
+         execution), and sends <= (retries+1) x (datagrams delivered + 8). Eco: Content-Length extremes over loopback HTTP. Large well-formed replies (2000 / 8000 / 20000 tiny Valve rules with 255 players in dozens of fragments, Unreal 2 lists in 6 datagrams, 3000 GameSpy 1 variables in 60 parts) under the same allowance"
             .into()
     }
     fn assumptions(&self) -> Vec<String> {
@@ -131,6 +134,67 @@ impl Prop for C13 {
                         }
                     },
                 );
+            }
+            What::LargeWellFormed => {
+                use crate::rsm::valve as rv;
+                use gamedig::protocols::types::GatherToggle::Enforce;
+                let mut runs: Vec<(String, crate::run::Exec<serde_json::Value>)> = Vec::new();
+                for n_rules in [2_000usize, 8_000, 20_000] {
+                    let e = super::c02::EngineCfg::App440;
+                    let mut st = valve_seed(e);
+                    st.rules = (0 .. n_rules).map(|i| (format!("r{i}"), String::new())).collect();
+                    st.players = rv::gen_players(&mut Chooser::new(&[]), e.layout(), &[255]);
+                    st.info.players = 255;
+                    let mut t = valve_seed_transport(e, &st);
+                    let (pl, rl) = (rv::players_body(&st.players).len(), rv::rules_body(&st.rules).len());
+                    t.players = rv::Framing::Source { cuts: crate::rsm::even_cuts(pl, pl.div_ceil(1200)), compressed: false, size_field: true, exact_size: true, id: 0x41 };
+                    t.rules = rv::Framing::Source { cuts: crate::rsm::even_cuts(rl, rl.div_ceil(1200).min(255)), compressed: false, size_field: true, exact_size: true, id: 0x42 };
+                    let gs = gamedig::protocols::valve::GatheringSettings { players: Enforce, rules: Enforce, check_app_id: false };
+                    let x = run_query(Box::new(rv::ValveServer::new(st, t)), Box::new(crate::vnet::Faithful), Chooser::new(&[]), || {
+                        gamedig::protocols::valve::query(&addr(), e.engine(), Some(gs), None).map(|r| to_json(&r))
+                    });
+                    runs.push((format!("valve::query, {n_rules} tiny rules and 255 players"), x));
+                }
+                {
+                    let mut st = crate::rsm::unreal2::gen_u2(&mut Chooser::new(&[]), &[300], &[64]);
+                    st.num_players = 64;
+                    let gs = gamedig::protocols::unreal2::GatheringSettings { players: Enforce, mutators_and_rules: Enforce };
+                    let x = run_query(Box::new(crate::rsm::unreal2::U2Server { state: st, rule_packets: 6, player_packets: 6 }), Box::new(crate::vnet::Faithful), Chooser::new(&[]), || {
+                        gamedig::protocols::unreal2::query(&addr(), &gs, None).map(|r| to_json(&r))
+                    });
+                    runs.push(("unreal2::query, 300 rules and 64 players in 6 datagrams each".into(), x));
+                }
+                {
+                    let mut st = gs1_seed();
+                    for i in 0 .. 3_000 {
+                        st.extra.push((format!("x{i}"), "1".to_string()));
+                    }
+                    let n = st.pairs().len();
+                    let cuts: Vec<usize> = (1 .. 60).map(|i| n * i / 60).collect();
+                    let x = run_query(Box::new(crate::rsm::gamespy::Gs1Server { state: st, cut_at: cuts }), Box::new(crate::vnet::Faithful), Chooser::new(&[]), || {
+                        gamedig::protocols::gamespy::one::query(&addr(), None).map(|r| to_json(&r))
+                    });
+                    runs.push(("gamespy::one::query, 3000 extra variables in 60 parts".into(), x));
+                }
+                for (name, x) in runs {
+                    ctx.account(&x, 0);
+                    let received: usize = x.log.iter().map(|e| if let WireEvent::Recv { data: Some(d), .. } = e { d.len() } else { 0 }).sum();
+                    ctx.distinct_key(&(name.clone(), x.outcome.class()));
+                    if x.outcome.ok().is_none() {
+                        ctx.violation("large-well-formed-reply-not-decoded", &[], name.clone(), x.outcome.describe_json(), "Ok(..)", render_log(&x.log).into_iter().take(20).collect());
+                    } else if x.alloc.largest > SINGLE_LIMIT || x.alloc.peak_live > LIVE_LIMIT {
+                        ctx.violation(
+                            format!("memory-out-of-proportion:large-well-formed-reply:{}", name.split(',').next().unwrap_or("")),
+                            &[],
+                            format!("{name}: largest single request {} bytes, peak live {} bytes for {received} bytes received", x.alloc.largest, x.alloc.peak_live),
+                            format!("largest={} peak_live={}", x.alloc.largest, x.alloc.peak_live),
+                            format!("largest <= {SINGLE_LIMIT}, peak live <= {LIVE_LIMIT}"),
+                            vec![],
+                        );
+                    } else {
+                        ctx.sample(serde_json::json!({"case": name, "received_bytes": received, "peak_live": x.alloc.peak_live, "largest": x.alloc.largest}));
+                    }
+                }
             }
             What::EcoHttp => {
                 let body = super::eco::gen_eco(&mut Chooser::new(&[])).json().into_bytes();
